@@ -27,17 +27,19 @@
      FixStray   the serve loop swallows the input stream of a stream call it rejected before the stream opened
      FixInitChk non-Stream / missing declared header are reported as init errors instead of killing the loop
      FixDrain   close()/cancel() drain through an error batch; a raising log callback still drains
+     FixBadValue a result / header value its declared type cannot hold is reported as the method's error (as found:
+                the serialization error escaped the serve loop: the client saw the connection end and the next call hung)
      FixBadIn   exchange() refuses a batch of another schema on an open input stream locally and closes the stream
                 in step (as found: the IPC writer's error was taken for a broken transport, the stream was left open
                 and the next request was read by the server as stream input)                                   *)
 EXTENDS Naturals, Sequences, FiniteSets, TLC
 
-CONSTANTS MaxCalls, MaxTicks, VerMismatch, FixStray, FixInitChk, FixDrain, FixBadIn,
+CONSTANTS MaxCalls, MaxTicks, VerMismatch, FixStray, FixInitChk, FixDrain, FixBadIn, FixBadValue,
           LogsBeforeRaise    \* are logs emitted by a process() step that then raises delivered before the error? (C08)
 
 \* ------------------------------------------------------------------------------------------ service
-\* k: "unary" | "prod" | "exch";  known: does the server have it;  init: "ok"|"raise"|"nonstream"|"hdrnone"
-\* steps: behaviour of successive process() calls ("emit","emitfin","fin","raise","lograise","logemit");
+\* k: "unary" | "prod" | "exch";  known: does the server have it;  init: "ok"|"raise"|"nonstream"|"hdrnone"|"hdrbad"
+\* steps: behaviour of successive process() calls ("emit","emitfin","fin","raise","lograise","logemit","bademit");
 \*        past the end: producers "fin", exchanges "emit".   u: unary behaviour "ok"|"raise"|"logok"|"lograise"
 \* badp: the client sends parameters the server's schema rejects
 M(n, k, hdr, init, steps, u) == [n |-> n, k |-> k, hdr |-> hdr, init |-> init, steps |-> steps, u |-> u,
@@ -45,6 +47,7 @@ M(n, k, hdr, init, steps, u) == [n |-> n, k |-> k, hdr |-> hdr, init |-> init, s
 Methods == {
   M("u_ok", "unary", FALSE, "ok", <<>>, "ok"),      M("u_err", "unary", FALSE, "ok", <<>>, "raise"),
   M("u_log", "unary", FALSE, "ok", <<>>, "logok"),  M("u_logerr", "unary", FALSE, "ok", <<>>, "lograise"),
+  M("u_badres", "unary", FALSE, "ok", <<>>, "badresult"),   \* returns a value its declared result type cannot hold (2^63)
   [M("u_badp", "unary", FALSE, "ok", <<>>, "ok") EXCEPT !.badp = TRUE],
   [M("zz_u", "unary", FALSE, "ok", <<>>, "ok") EXCEPT !.known = FALSE],
   M("__describe__", "unary", FALSE, "ok", <<>>, "ok"),      \* built-in introspection: answered even under a version mismatch
@@ -62,6 +65,8 @@ Methods == {
   M("ph2", "prod", TRUE, "ok", <<"emit", "fin">>, "ok"),
   M("ph_initerr", "prod", TRUE, "raise", <<>>, "ok"),
   M("ph_none", "prod", TRUE, "hdrnone", <<>>, "ok"),
+  M("ph_badhdr", "prod", TRUE, "hdrbad", <<>>, "ok"),       \* header holds a value its declared type cannot hold
+  M("p_bademit", "prod", FALSE, "ok", <<"emit", "bademit">>, "ok"),   \* a step emits a value the output schema cannot hold
   [M("ph_badp", "prod", TRUE, "ok", <<"emit", "fin">>, "ok") EXCEPT !.badp = TRUE],
   [M("zz_ph", "prod", TRUE, "ok", <<>>, "ok") EXCEPT !.known = FALSE],
   M("x_ok", "exch", FALSE, "ok", <<>>, "ok"),
@@ -265,14 +270,16 @@ SReadRequest ==
      /\ IF Rejected(m)
         THEN /\ Push([t |-> "S", k |-> "err", cid |-> x.cid, logs |-> 0])
              /\ srv' = [srv EXCEPT !.stray = (FixStray /\ StrayAfter(m))]
+        ELSE IF m.k = "unary" /\ m.u = "badresult" /\ ~FixBadValue
+        THEN /\ UNCHANGED s2c /\ srv' = [srv EXCEPT !.pc = "dead"]       \* serialization error escapes the serve loop
         ELSE IF m.k = "unary"
-        THEN /\ Push([t |-> "S", k |-> IF m.u \in {"raise", "lograise"} THEN "err" ELSE "result", cid |-> x.cid,
+        THEN /\ Push([t |-> "S", k |-> IF m.u \in {"raise", "lograise", "badresult"} THEN "err" ELSE "result", cid |-> x.cid,
                       logs |-> IF m.u \in {"logok", "lograise"} THEN 2 ELSE 0])
              /\ srv' = [srv EXCEPT !.stray = FALSE]
-        ELSE IF m.init = "raise" \/ (FixInitChk /\ m.init \in {"nonstream", "hdrnone"})
+        ELSE IF m.init = "raise" \/ (FixInitChk /\ m.init \in {"nonstream", "hdrnone"}) \/ (FixBadValue /\ m.init = "hdrbad")
         THEN /\ Push([t |-> "S", k |-> "err", cid |-> x.cid, logs |-> 0])
              /\ srv' = [srv EXCEPT !.stray = (FixStray /\ ~m.hdr)]
-        ELSE IF m.init \in {"nonstream", "hdrnone"}
+        ELSE IF m.init \in {"nonstream", "hdrnone", "hdrbad"}
         THEN /\ UNCHANGED s2c /\ srv' = [srv EXCEPT !.pc = "dead"]       \* exception escapes the serve loop
         ELSE /\ IF m.hdr THEN Push([t |-> "S", k |-> "hdr", cid |-> x.cid, logs |-> 0]) ELSE UNCHANGED s2c
              /\ srv' = [srv EXCEPT !.pc = "open_in", !.m = m.n, !.cid = x.cid, !.k = 0, !.stray = FALSE, !.ndata = 0]
@@ -316,7 +323,7 @@ SLoop ==
                  [] st = "log2emit" -> s2c' = s2c \o <<L, L, D>> /\ srv' = [srv EXCEPT !.k = @ + 1, !.ndata = @ + 1]
                  [] st = "emitfin"  -> s2c' = s2c \o <<D, Z>> /\ srv' = [srv EXCEPT !.pc = "drain_in", !.ndata = @ + 1]
                  [] st = "fin"      -> s2c' = s2c \o <<Z>> /\ srv' = [srv EXCEPT !.pc = "drain_in"]
-                 [] st = "raise"    -> s2c' = s2c \o <<E, Z>> /\ srv' = [srv EXCEPT !.pc = "drain_in"]
+                 [] st \in {"raise", "bademit"} -> s2c' = s2c \o <<E, Z>> /\ srv' = [srv EXCEPT !.pc = "drain_in"]
                  [] st = "lograise" -> /\ s2c' = s2c \o (IF LogsBeforeRaise THEN <<L>> ELSE <<>>) \o <<E, Z>>
                                        /\ srv' = [srv EXCEPT !.pc = "drain_in"])
           [] x.t = "inb" -> /\ s2c' = s2c \o <<[t |-> "oe", cid |-> c], [t |-> "oz", cid |-> c]>>      \* input schema mismatch
